@@ -8,7 +8,8 @@ Scope (exhaustive over the stated box): n <= 8 (quick: <= 6), p <= 3, seeds 0..4
                            single-tuple form, overlapping pairs (only rows covered once are compared), every single interval of
                            [-2, n+2]^2 that is empty / reversed / leaves [0, n], wrong number of means / variances, the empty list;
   generate_alternating_data every (n_segments, segment_length) with product <= n_max, p <= 3, every number of affected columns;
-  add_linspace_outliers    rows <= 8, p <= 3, 0 <= n_outliers <= rows, two outlier sizes, two row indexes.
+  add_linspace_outliers    rows <= 8, p <= 3, 0 <= n_outliers <= rows, two outlier sizes, two row indexes, frames built as one block /
+                           by pd.concat of series / column by column / with mixed float dtypes (multi-block frames).
 Means / variances come as scalars, per-segment scalars, per-segment per-column arrays or lists, one broadcast entry, and the
 mixed forms (per-column mean with scalar variance, scalar mean with per-column variance).
 
@@ -242,8 +243,21 @@ def check_outliers(rec, inp):
     rows, p, k, size = inp["rows"], inp["p"], inp["n_outliers"], inp["size"]
     base = zref(rows, p, inp["seed"])
     index = range(rows) if not inp.get("shift") else range(inp["shift"], inp["shift"] + rows)
-    df = pd.DataFrame(base.copy(), index=index, columns=[f"var{j}" for j in range(p)])
-    desc = f"add_linspace_outliers(<{rows}x{p} frame>, n_outliers={k}, outlier_size={size})"
+    cols = [f"var{j}" for j in range(p)]
+    build = inp.get("build", "block")
+    if build == "concat":          # one block per column (pd.concat of series): .values is a copy of such frames
+        df = pd.concat([pd.Series(base[:, j].copy(), index=index, name=cols[j]) for j in range(p)], axis=1)
+    elif build == "assign":        # columns added one by one
+        df = pd.DataFrame(index=index)
+        for j in range(p):
+            df[cols[j]] = base[:, j].copy()
+    elif build == "mixed":         # float64 and float32 columns (two blocks); values chosen exactly representable
+        df = pd.DataFrame(base.copy(), index=index, columns=cols)
+        df[cols[-1]] = df[cols[-1]].astype("float32")
+        base = np.asarray(df, dtype=float)
+    else:
+        df = pd.DataFrame(base.copy(), index=index, columns=cols)
+    desc = f"add_linspace_outliers(<{rows}x{p} frame built by {build}>, n_outliers={k}, outlier_size={size})"
     try:
         out = add_linspace_outliers(df, k, size)
     except Exception as e:                   # noqa: BLE001
@@ -256,8 +270,9 @@ def check_outliers(rec, inp):
         rec.violation(key, f"{desc} returned shape {o.shape}", "C18.outliers", inp)
         return k >= 2
     diff = o - base
-    hit = [i for i in range(rows) if not close(diff[i], np.zeros(p))]
-    ok = len(hit) == k and all(close(diff[i], np.full(p, size)) for i in hit)
+    tol = 1e-4 if build == "mixed" else 1e-8          # a float32 column rounds x + size to float32
+    hit = [i for i in range(rows) if not close(diff[i], np.zeros(p), tol)]
+    ok = len(hit) == k and all(close(diff[i], np.full(p, size), tol) for i in hit)
     if ok and k >= 1:
         ok = hit[0] == 0
     if ok and k >= 2:
@@ -447,10 +462,11 @@ def run(tier="quick", seed=0, repo="/repo"):
             for k in range(0, rows + 1):
                 for size in (5.0, -2.5):
                     for shift in (0, 10):
-                        inp = {"fn": "add_linspace_outliers", "rows": rows, "p": p, "n_outliers": k, "size": size, "seed": seed % 5,
-                               "shift": shift}
-                        nt = check_outliers(rec, inp)
-                        rec.case(("outliers", rows, p, k, size, shift), nt, inp if (rows, p, k, shift) == (4, 2, 2, 0) else None)
+                        for build in (("block", "concat", "assign", "mixed") if p > 1 else ("block", "concat")):
+                            inp = {"fn": "add_linspace_outliers", "rows": rows, "p": p, "n_outliers": k, "size": size, "seed": seed % 5,
+                                   "shift": shift, "build": build}
+                            nt = check_outliers(rec, inp)
+                            rec.case(("outliers", rows, p, k, size, shift, build), nt, inp if (rows, p, k, shift) == (4, 2, 2, 0) else None)
     return rec.result(RULE, f"n <= {nmax}, p <= 3, seeds 0..4, all position lists (see module docstring); add_linspace_outliers rows <= 8",
                       exhaustive=True)
 
